@@ -324,6 +324,29 @@ def _rhs_patterns(rng, B):
     for j in range(k):
         d[(j * 2) % n, j, 0] = 1.0
     out["unit_vectors"] = refq.qa(d)
+    if k >= 2 and n >= 2:
+        # STAGGERED zero structure: every column has its own first / last non-zero row, and column 0 is the one that starts latest (ends
+        # earliest) - a shortcut that reads the zero pattern off one column and applies it to all is wrong for the others
+        d = c.copy()
+        for j in range(k):
+            d[: max(0, min(n - 1, k - 1 - j)), j] = 0.0
+        out["staggered_leading_zeros_col0_latest"] = refq.qa(d)
+        d = c.copy()
+        for j in range(k):
+            d[: min(n - 1, j), j] = 0.0
+        out["staggered_leading_zeros_col0_earliest"] = refq.qa(d)
+        d = c.copy()
+        for j in range(k):
+            d[max(1, n - (k - 1 - j)):, j] = 0.0
+        out["staggered_trailing_zeros_col0_earliest_end"] = refq.qa(d)
+        d = np.zeros_like(c)
+        for j in range(k):
+            d[(n - 1 - j) % n, j, 0] = 1.0
+        out["reversed_unit_vectors"] = refq.qa(d)
+        d = c.copy(); d[: n - 1, 0] = 0.0
+        out["col0_only_last_row"] = refq.qa(d)
+        d = c.copy(); d[1:, 0] = 0.0
+        out["col0_only_first_row"] = refq.qa(d)
     return out
 
 
